@@ -75,9 +75,13 @@ type Machine struct {
 	MaxSteps int
 	Steps    int
 	Quirk    bool // a behaviour pinned from the implementation contributed
+	// Soft: the run left the specified part at a point where the model can
+	// still follow the engine; the run is completed and reported unspecified.
+	Soft string
 	Loc      *time.Location
 	Stats    Stats
 
+	alloc    int
 	scopes   []scope
 	frame    int
 	nframe   int
@@ -130,13 +134,21 @@ func (m *Machine) Declare(p *Program) {
 // Run executes a program: result value (Null when running off the end).
 func (m *Machine) Run(p *Program) (Value, error) {
 	m.Declare(p)
+	m.alloc = 0
 	m.scopes = nil
 	m.frame = 0
 	m.loopNest, m.armNest = 0, 0
+	m.Soft = ""
 	c, v, err := m.execBlock(p.Stmts)
 	m.scopes = nil
 	if err != nil {
+		if m.Soft != "" && !(IsKind(err, ErrUnspec) && strings.HasPrefix(err.Error(), "resource:")) && !IsKind(err, ErrBudget) {
+			return Null(), unspec("%s", m.Soft)
+		}
 		return Null(), err
+	}
+	if m.Soft != "" {
+		return Null(), unspec("%s", m.Soft)
 	}
 	if c == ctlReturn {
 		if v.K == KVoid {
@@ -174,8 +186,11 @@ func (m *Machine) lookup(name string) (Value, error) {
 	name = strings.TrimPrefix(name, "$")
 	for i := len(m.scopes) - 1; i >= 0; i-- {
 		if v, ok := m.scopes[i].vars[name]; ok {
-			if m.scopes[i].frame != m.frame {
-				return Null(), unspec("callee reads a caller's local %q", name)
+			if m.scopes[i].frame != m.frame && m.Soft == "" {
+				// outside what the language text fixes; the run goes on with the
+				// dynamic lookup (so that resource hazards further on are still
+				// seen) and is reported as unspecified at the end
+				m.Soft = fmt.Sprintf("callee reads a caller's local %q", name)
 			}
 			return v, nil
 		}
@@ -193,8 +208,8 @@ func (m *Machine) lookup(name string) (Value, error) {
 func (m *Machine) set(name string, v Value) error {
 	for i := len(m.scopes) - 1; i >= 0; i-- {
 		if _, ok := m.scopes[i].vars[name]; ok {
-			if m.scopes[i].frame != m.frame {
-				return unspec("callee writes a caller's local %q", name)
+			if m.scopes[i].frame != m.frame && m.Soft == "" {
+				m.Soft = fmt.Sprintf("callee writes a caller's local %q", name)
 			}
 			m.scopes[i].vars[name] = v
 			return nil
@@ -532,9 +547,29 @@ func (m *Machine) eval(e Expr) (Value, error) {
 				return Null(), err
 			}
 			out = append(out, v)
+			m.alloc += 1 + len(v.A)
+			if m.alloc > MaxAlloc {
+				return Null(), unspec("resource: the run builds more than %d container elements", MaxAlloc)
+			}
 		}
 		return Array(out...), nil
 	case HashLit:
+		// The engine evaluates the pairs in the order of their key texts, not
+		// in written order. If any pair needs more memory than a host has, the
+		// whole literal is a resource case whatever fails first in written order.
+		if len(x.Keys) > 1 {
+			saved := len(m.Trace)
+			for i := range x.Keys {
+				for _, sub := range []Expr{x.Keys[i], x.Vals[i]} {
+					if _, err := m.needValue(sub); err != nil && IsKind(err, ErrUnspec) && strings.HasPrefix(err.Error(), "resource:") {
+						return Null(), err
+					} else if err != nil && IsKind(err, ErrBudget) {
+						return Null(), err
+					}
+				}
+			}
+			m.Trace = m.Trace[:saved]
+		}
 		h := Hash()
 		nTrace := len(m.Trace)
 		for i := range x.Keys {
@@ -861,7 +896,10 @@ func (m *Machine) stringOp(op string, a, b string) (Value, error) {
 }
 
 // MaxRange bounds the size of a range the model is willing to build.
-const MaxRange = 100000
+const MaxRange = 20000
+
+// MaxAlloc bounds the container elements a single model run may create.
+const MaxAlloc = 200000
 
 // RangeOp builds the inclusive integer range.
 func (m *Machine) RangeOp(l, r Value) (Value, error) {
@@ -873,6 +911,10 @@ func (m *Machine) RangeOp(l, r Value) (Value, error) {
 	}
 	if r.I-l.I < 0 || r.I-l.I >= MaxRange {
 		return Null(), unspec("resource: range too large")
+	}
+	m.alloc += int(r.I - l.I + 1)
+	if m.alloc > MaxAlloc {
+		return Null(), unspec("resource: the run builds more than %d container elements", MaxAlloc)
 	}
 	out := make([]Value, 0, r.I-l.I+1)
 	for i := l.I; ; i++ {
